@@ -20,7 +20,104 @@ def rot_dir(theta_deg):
     return [math.sin(t), 0.0, math.cos(t)]
 
 
+def check_parametric_model(ctx):
+    """Correspondence of the Lean model of NumPy `intersect_parametric` (lean/OdakModel/Parametric.lean, driver op `param_sphere`: the
+    loop by hand, its body regenerated from the source) with the real `intersect_parametric` / `intersect_w_sphere` on a sphere:
+    exit kind (hit / iteration limit / NaN / guard false on entry), number of passes (observed by counting calls of the surface
+    function), returned distance and point.  NumPy float64 on both sides, same operation order: tolerance 1e-9 relative."""
+    import warnings
+    import odak.raytracing as NR
+    from odak.raytracing.boundary import intersect_parametric, get_sphere_normal
+    from odak.raytracing.primitives import sphere_function
+    rng = ctx.rng
+    dflt = ctx.model.ask(['param_defaults'])[0].split() if ctx.drv_ok else None
+    cases = [('hit', [[0, 0, 0], [0, 0, 1.0]], [0, 0, 10.0, 3.0], 1e-8, None),
+             ('miss', [[0, 0, 0], [1.0, 0, 0]], [0, 0, 10.0, 3.0], 1e-8, 400),
+             ('miss_offset', [[10.0, 0, 0], [0, 0, 1.0]], [0, 0, 10.0, 3.0], 1e-8, 250),
+             ('pointing_away', [[0, 0, 0], [0, 0, -1.0]], [0, 0, 10.0, 3.0], 1e-8, 300),
+             ('grazing_exact', [[3.0, 0, 0], [0, 0, 1.0]], [0, 0, 10.0, 3.0], 1e-8, 2000),
+             ('grazing_inside', [[3.0 - 1e-6, 0, 0], [0, 0, 1.0]], [0, 0, 10.0, 3.0], 1e-8, 2000),
+             ('grazing_outside', [[3.0 + 1e-6, 0, 0], [0, 0, 1.0]], [0, 0, 10.0, 3.0], 1e-8, 600),
+             ('inside_start_centre', [[0, 0, 10.0], [0, 0, 1.0]], [0, 0, 10.0, 3.0], 1e-8, None),
+             ('inside_start', [[0.5, -1.0, 9.0], [0.6, 0.0, 0.8]], [0, 0, 10.0, 3.0], 1e-8, None),
+             ('zero_direction', [[0, 0, 0], [0, 0, 0]], [0, 0, 10.0, 3.0], 1e-8, 300),
+             ('limit_zero', [[0, 0, 0], [0, 0, 1.0]], [0, 0, 10.0, 3.0], 1e-8, 0),
+             ('limit_one_short', [[0, 0, 0], [0, 0, 1.0]], [0, 0, 10.0, 3.0], 1e-8, 9),
+             ('limit_exact', [[0, 0, 0], [0, 0, 1.0]], [0, 0, 10.0, 3.0], 1e-8, 10),
+             ('loose_tolerance', [[0, 0, 0], [0, 0, 1.0]], [0, 0, 10.0, 3.0], 1e-2, 300),
+             ('guard_false_on_entry', [[0, 0, 0], [0, 0, 1.0]], [0, 0, 10.0, 3.0], 100.0, 300)]
+    for i in range(ctx.n(30, 300)):
+        c = np.array([rng.uniform(-1, 1), rng.uniform(-1, 1), rng.uniform(6, 14)])
+        r = rng.uniform(0.5, 4)
+        o = np.array([rng.uniform(-2, 2) for _ in range(3)])
+        kind = rng.choice(['hit', 'hit', 'miss', 'grazing'])
+        u = np.array([rng.gauss(0, 1) for _ in range(3)])
+        d0 = (c - o) / np.linalg.norm(c - o)
+        u = u - np.dot(u, d0) * d0
+        u = u / np.linalg.norm(u)
+        off = {'hit': rng.uniform(0, 0.8), 'miss': rng.uniform(1.3, 3), 'grazing': 1 + rng.choice([-1, 1]) * 10 ** rng.uniform(-7, -3)}[kind]
+        d = c + off * r * u - o
+        d = d / np.linalg.norm(d)
+        cases.append(('random_' + kind, [o.tolist(), d.tolist()], c.tolist() + [r], rng.choice([1e-8, 1e-8, 1e-5]), rng.choice([150, 400])))
+    lines = []
+    for name, ray, sph, target, limit in cases:
+        lim = limit if limit is not None else int(dflt[1]) if dflt else 100000
+        lines.append('param_sphere %s %s %d %d' % (fl(ray[0] + ray[1]), fl(sph), f2b(target), lim))
+    outs = ctx.model.ask(lines) if ctx.drv_ok else [None] * len(lines)
+    for (name, ray, sph, target, limit), out in zip(cases, outs):
+        rec = {'kind': 'parametric_model', 'name': name, 'ray': ray, 'sphere': sph, 'target_error': target, 'limit': limit}
+        ctx.case(('parametric_model', name, tuple(ray[1])), True, rec if name == 'hit' else None)
+        ctx.count('parametric_model/' + name.replace('random_', 'random '))
+        calls = [0]
+
+        def counting(p, s):
+            calls[0] += 1
+            return sphere_function(p, s)
+        kw = {} if limit is None else {'iter_no_limit': limit}
+        with warnings.catch_warnings():
+            warnings.simplefilter('ignore')
+            try:
+                dist, normal = intersect_parametric(np.array(ray, dtype=np.float64), np.array(sph, dtype=np.float64), counting,
+                                                    get_sphere_normal, target_error=target, **kw)
+                py = ('hit', calls[0], float(np.asarray(dist).reshape(-1)[0]), np.asarray(normal, dtype=np.float64).reshape(2, 3)[0]) \
+                    if normal is not False else ('miss', calls[0])
+            except UnboundLocalError:
+                py = ('unbound', calls[0])
+        if limit is None and py[0] == 'hit':       # the public entry point with the defaults gives the same answer
+            with warnings.catch_warnings():
+                warnings.simplefilter('ignore')
+                n2, d2 = NR.intersect_w_sphere(np.array(ray, dtype=np.float64), np.array(sph, dtype=np.float64))
+            if float(np.asarray(d2).reshape(-1)[0]) != py[2]:
+                ctx.alarm('correspondence', 'intersect_w_sphere and intersect_parametric disagree for %s' % rec)
+        if out is None:
+            continue
+        tok = out.split()
+        mk, mit = tok[0], int(tok[1])
+        lim = limit if limit is not None else int(dflt[1])
+        if mk == '0':
+            md, mp = b2f(tok[2]), np.array([b2f(t) for t in tok[3:6]])
+            ok = py[0] == 'hit' and py[1] == mit and abs(py[2] - md) <= 1e-9 * max(1.0, abs(md)) and \
+                np.all(np.abs(py[3] - mp) <= 1e-9 * max(1.0, float(np.max(np.abs(mp)))))
+            # the conclusion of C12_parametric_hit on the implementation's own output: within the limit, residual at the POINT
+            if py[0] == 'hit':
+                resid = abs(float(sphere_function(py[3], np.array(sph))[0]))
+                if not (resid <= target and 1 <= py[1] <= lim):
+                    ctx.violation('intersect_parametric returns a hit whose point has sphere-function residual %g > target_error %g '
+                                  '(or after %d > limit passes)' % (resid, target, py[1]), rec,
+                                  {'fn': 'intersect_parametric', 'api': 'numpy', 'what': 'hit_residual', 'case': name})
+        elif mk == '1':
+            ok = py[0] == 'miss' and py[1] == mit == lim + 1
+        elif mk == '2':
+            ok = py[0] == 'miss' and py[1] == mit and mit <= lim
+        else:
+            ok = py[0] == 'unbound' and py[1] == 0
+        if not ok:
+            ctx.alarm('correspondence', 'intersect_parametric %s vs model %s (%s)' % (
+                [x.tolist() if isinstance(x, np.ndarray) else x for x in py], out if mk != '0' else [mk, mit, md, mp.tolist()], rec))
+
+
 def run(ctx):
+    check_parametric_model(ctx)
     rng = ctx.rng
     ctx.rule = ('boundary classes for the refraction root finder (beyond / exactly at / just below the critical angle, grazing, '
                 'zero-length direction, zero normal, mixed batches, zero and negative tolerances) and for ray-sphere / ray-cylinder '
